@@ -12,6 +12,7 @@ pub mod stack;
 pub mod c07;
 pub mod c08;
 pub mod c09;
+pub mod c10;
 pub mod c15;
 pub mod c16;
 pub mod c17;
@@ -21,11 +22,17 @@ pub mod c20;
 pub mod ik;
 
 pub fn registry() -> Vec<Prop> {
-    vec![c01::prop(), c02::prop(), c03::prop(), c04::prop(), c05::prop(), c06::prop(), c07::prop(), c08::prop(), c09::prop(), c15::prop(), c16::prop(), c17::prop(), c18::prop(), c19::prop(), c20::prop()]
+    vec![c01::prop(), c02::prop(), c03::prop(), c04::prop(), c05::prop(), c06::prop(), c07::prop(), c08::prop(), c09::prop(), c10::prop(), c15::prop(), c16::prop(), c17::prop(), c18::prop(), c19::prop(), c20::prop()]
 }
 
-pub fn child(_args: &[String]) -> i32 {
-    2
+pub fn child(args: &[String]) -> i32 {
+    match args.get(0).map(|s| s.as_str()) {
+        Some("c10debug") => c10::debug(args[1].parse().unwrap(), args[2].parse().unwrap()),
+        Some("c10parry") => c10::debug_parry(),
+        Some("c10tri") => c10::debug_tri(),
+        Some("c10scale") => c10::debug_scale(),
+        _ => 2,
+    }
 }
 
 pub fn robot_json(r: &Robot) -> Value {
